@@ -2776,7 +2776,18 @@ func (w *sgWorld) runMulti(c *sgCase, in *sgInput) {
 			}
 			for i := range post {
 				if post[i] != pre[i]+cnt[i] {
-					c.fail("%s: account %d's sequence went %d -> %d while %d message(s) executed on its behalf", what, i, pre[i], post[i], cnt[i])
+					again := []string{}
+					for _, g := range msgs {
+						if g.rec == i && g.tx.Nonce() >= post[i] {
+							again = append(again, g.label+" "+g.hash)
+						}
+					}
+					hint := ""
+					if len(again) > 0 {
+						hint = fmt.Sprintf(": the executed message(s) [%s] carry a nonce the account's sequence has not passed and can be delivered a second time", strings.Join(again, ", "))
+					}
+					c.fail("%s [%s]: account %d's sequence went %d -> %d while %d message(s) executed on its behalf (must be %d)%s",
+						what, strings.Join(labels, ", "), i, pre[i], post[i], cnt[i], pre[i]+cnt[i], hint)
 				}
 				if paid := new(big.Int).Sub(preBal[i], postBal[i]); paid.Cmp(allowed[i]) > 0 {
 					c.fail("%s: account %d paid %s, more than the messages executed on its behalf can cost (%s)", what, i, paid, allowed[i])
